@@ -54,16 +54,16 @@ PROPS["C04"] = {
 PROPS["C05"] = {
     "kani": ["c05_encoder", "c05_fmtrec"],
     "verus": [],
-    "technique": "Kani/CBMC full-domain harnesses on TTYEncoder::encode per command variant (panic freedom, literal sequences, SGR code selection); core::fmt rendering assumed",
+    "technique": "Kani/CBMC full-domain harnesses on TTYEncoder::encode per command variant (panic freedom, literal sequences, SGR code selection; formatted commands through the write! recorder K2: format literal + integer arguments); core::fmt rendering assumed",
     "level_text": "Proved (Kani, every parameter value and capability setting): encode never panics or overflows for CursorTo/CursorMove/Scroll/ScrollRegion/EraseChars/DecModeSet/DecModeGet/KeyboardLevel/Color query; "
                   "parameterless commands emit exactly their ECMA-48/xterm bytes; a FaceModify that selects nothing representable emits nothing. "
                   "Alt-screen keyboard-level bracketing (complete, kitty_level replaced by a recording stub): entering the alternate screen emits the switch and THEN sets the level, leaving resets the level to 0 and THEN switches - "
                   "the main screen's own level is never touched; other modes and terminals without the kitty keyboard emit the switch only. "
                   "Face / FaceModify with colours (complete in the colour values and depth): reset first, then foreground, background (and underline colour) each handed to the colour encoder in its own role, in that order, at the terminal's depth. Face / FaceModify without colours emit one well-formed SGR sequence selecting exactly the requested attributes "
-                  "(0 first for Face; 1/22, 3/23, 5/25, 9/29, 4, 4:n, 24) on 20 fixed attribute sets (bounded stand-ins: the harness over all 6 x 32 sets does not finish in CBMC). Which decimal digits core::fmt prints for the numeric parameters, colour parameters (C20 covers the selection), Title/Termcap/Raw strings are NOT decided.",
-    "level_note": "Assumed: core::fmt (write! templates and integer Display) - the sink in the harnesses records literal bytes and counts formatted writes; colours go through write! into Chunks and are outside CBMC's reach.",
+                  "(0 first for Face; 1/22, 3/23, 5/25, 9/29, 4, 4:n, 24) on 20 fixed attribute sets (bounded stand-ins: the harness over all 6 x 32 sets does not finish in CBMC). Formatted commands (Kani complete, normalisation K2 = every write! also records its format literal and integer arguments): CursorTo is CUP with row+1 first and col+1 second, DecModeSet/DecModeGet are DECSET/DECRST/DECRQM with the xterm number of every mode and h exactly when enabling, CursorMove is CUF/CUB then CUD/CUU with the magnitude, Scroll is SU/SD, EraseChars ECH, ScrollRegion DECSTBM or its reset form, KeyboardLevel the kitty sequence only with that protocol. That core::fmt copies the literal and prints integers in decimal, Title/Termcap/Raw/Char strings and the colour query are NOT decided.",
+    "level_note": "Assumed: core::fmt (rendering of a write! template with integer arguments) - formatted commands are compared as (format literal, integer arguments) records (normalisation K2), literal commands byte for byte.",
     "assumptions": [
-        "core::fmt is intractable for CBMC (probes: > 7 min, > 10 GB symbolic; no verdict in 10 min with all-concrete arguments; no verdict in 15 min with Display::fmt of usize stubbed): the pairing of each numeric template with its arguments and the decimal rendering are read from the source, not proved",
+        "core::fmt is intractable for CBMC (probes: > 7 min, > 10 GB symbolic; no verdict in 10 min with all-concrete arguments; no verdict in 15 min with Display::fmt of usize stubbed): so formatted output is observed one step earlier, as the (format literal, integer arguments) handed to write! (normalisation K2: arguments evaluated twice, the real write! unchanged); that core::fmt renders this pair as literal parts + decimal digits is assumed",
         "Face/FaceModify with colours: which colour goes to which SGR role, in which order and at which depth is checked (color_sgr_encode replaced by a recorder); color_sgr_encode's own output (38/48/58, 2|5, digits) is not - "
         "io::Write::write_fmt is a trait default method, which Kani cannot stub; Title, Termcap, Raw, Char, Image are not under contract",
         "oracle byte sequences are transcribed from ECMA-48 / xterm ctlseqs / VT510",
@@ -153,7 +153,7 @@ PROPS["C11"] = {
     "technique": "Kani function contracts (proof_for_contract + stub_verified) on the placement-id functions; modular Kani harness on KittyImageHandler::erase with the id functions replaced by recorders; Verus on the payload encoder",
     "level_text": "Proved (Kani contracts, all positions below 65536): kitty_placement_id == row + col*65536 <= 2^32-1, kitty_placement_to_pos inverts it, ids are injective - so erase(img, pos) addresses exactly the "
                   "placement draw(img, pos) creates (both call the same function on the same position). "
-                  "Proved (Kani, every position; id functions replaced by recorders): erase(img, Some(pos)) emits exactly one command, built from the image id of that image and the placement id of exactly that position; erase(img, None) addresses the image only. Payload = base64 of row-major RGBA rests on C07 (iteration order) + C14 (encoder). "
+                  "Proved (Kani, every position; id functions replaced by recorders): erase(img, Some(pos)) emits exactly one command, `a=d,d=i,i=<image id>,p=<placement id>` (format literal and arguments recorded, K2), built from the image id of that image and the placement id of exactly that position; erase(img, None) emits `a=d,d=i,i=<image id>` and addresses the image only. Payload = base64 of row-major RGBA rests on C07 (iteration order) + C14 (encoder). "
                   "Proved (Verus, unit base64enc): the payload encoder emits exactly b64(bytes) for any write partition, its length is 4*ceil(n/3) (a multiple of four), and cutting such a payload into 4096-byte pieces gives pieces that are multiples of four with only the last one shorter (lemma_chunks_4096) - the arithmetic the chunk loop relies on. "
                   "That draw() runs exactly that loop with m = (index + 1 < count), the transmit-once HashMap cache, re-transmission on error and the control strings (core::fmt, dyn Write) are NOT decided.",
     "level_note": "Partial: identifiers and erase's addressing. KittyImageHandler::draw/handle bodies are assumed (HashMap cache: hashbrown's SIMD probing does not finish in CBMC).",
@@ -235,16 +235,16 @@ PROPS["C16"] = {
 PROPS["C20"] = {
     "kani": ["c20_colors", "c05_fmtrec"],
     "verus": ["c20sep"],
-    "technique": "Kani/CBMC full-domain (bit-precise f32) harnesses on the table search",
+    "technique": "Kani/CBMC full-domain (bit-precise f32) harnesses on the table search; modular Kani harness on color_sgr_encode's 256-colour arm (nearest / distance by recording stubs, emitted number through the write! recorder K2)",
     "level_text": "Proved (Kani, every non-NaN f32): nearest(v, CUBE), nearest(v, GREYS) and nearest(v, [0,.33,.66,1]) return an arg-min of |v - table[j]| in f32 arithmetic; the tables are strictly increasing and every entry is the linear-light value of the xterm level it stands for (0,95,..,255; 8+10k) to within 1e-6 "
                   "(expected values transcribed from the sRGB transfer function evaluated in double precision); "
                   "the grey level is monotone in the luminance. That per-channel nearest + nearest-to-mean + the final distance comparison give the global optimum over the 240 entries (separability), "
-                  "the sRGB->linear conversion, Color::luma, LinColor::distance (SIMD) and the emitted index digits are NOT decided.",
-    "level_note": "Partial: selection primitive only. color_sgr_encode writes through core::fmt and calls rasterize (powf, SSE dpps) which CBMC cannot enter.",
+                  "Proved (Kani, every colour in [0,1]^3, all roles; nearest and LinColor::distance replaced by recording stubs with free answers): color_sgr_encode looks the three channels up in the cube table and their mean in the grey table, compares exactly the grey and the cube candidate, and emits 232 + k for the grey answer when it is reported strictly closer, 16 + 36r + 6g + b otherwise (thorough: the same with the real nearest). The sRGB->linear conversion, Color::luma and LinColor::distance (SIMD) themselves are NOT decided.",
+    "level_note": "Partial: selection primitive, tables and the index arithmetic of the 256-colour arm. rasterize's conversion and metric (powf, SSE dpps) are assumed.",
     "assumptions": [
         "the 30 expected table values were computed outside the verifier (powf) and transcribed into the harness; that rasterize's LinColor::from implements the same sRGB transfer function is assumed",
         "LinColor::distance is Euclidean in linear RGB and srgb->linear is monotone: assumed contracts of the rasterize dependency",
-        "the separability lemmas idealise f32 as exact arithmetic (near-ties within one ulp are not decided) and are not linked mechanically to the body of color_sgr_encode (which needs rasterize + core::fmt)",
+        "the separability lemmas idealise f32 as exact arithmetic (near-ties within one ulp are not decided) ; the body of color_sgr_encode is linked through c20_eightbit_index_modular (which candidate wins is whatever LinColor::distance reports)",
     ],
 }
 
